@@ -232,7 +232,10 @@ def validate_traces(module, cfg, tag, traces, shards=8, timeout=900, env=None, c
         results = list(ex.map(_run_trace_shard, jobs))
     for job, r in zip(jobs, results):
         if not r.completed or r.violated:
-            raise TLCError("trace batch failed rc=%s\n%s" % (r.rc, r.out[-4000:]))
+            logp = os.path.join(d, "trace_fail_%d.log" % os.getpid())
+            open(logp, "w").write(r.out)
+            m = re.search(r"^Error: .*(?:\n.*){0,12}", r.out, re.M)
+            raise TLCError("trace batch failed rc=%s (full log %s)\n%s" % (r.rc, logp, m.group(0) if m else r.out[-3000:]))
         st["states"] += r.distinct
         st["transitions"] += r.generated
         st["wall"] = max(st["wall"], r.wall)
